@@ -408,9 +408,11 @@ pub fn shrink(
 ) -> (Case, String, String, Verdict) {
     let mut best = (c.clone(), impl_out.to_string(), model_out.to_string(), v);
     let mut rounds = 0;
+    let t0 = std::time::Instant::now();
+    let mut out_of_time = false;
     loop {
         rounds += 1;
-        if rounds > 40 {
+        if rounds > 40 || out_of_time {
             break;
         }
         let cur = &best.0;
@@ -446,16 +448,31 @@ pub fn shrink(
         if cands.is_empty() {
             break;
         }
-        let reqs: Vec<String> = cands.iter().map(|x| x.req()).collect();
-        let io = run_impl_all(&cands, run_impl);
-        let mo = model.query(&reqs);
+        // candidates are evaluated in small batches (first failing one wins) under a time budget: one model query on a
+        // 70 kb sequence with a 65 k window costs tens of seconds, and a replay that is not minimal is still a replay
         let mut found = None;
-        for (i, cc) in cands.iter().enumerate() {
-            let vv = judge(cc, &io[i], &mo[i]);
-            if same_class(&vv, &best.3) {
-                found = Some((cc.clone(), io[i].clone(), mo[i].clone(), vv));
+        let batch = if n > 20_000 { 8 } else { 64 };
+        for chunk in cands.chunks(batch) {
+            if t0.elapsed().as_secs() > 120 {
+                out_of_time = true;
                 break;
             }
+            let reqs: Vec<String> = chunk.iter().map(|x| x.req()).collect();
+            let io = run_impl_all(chunk, run_impl);
+            let mo = model.query(&reqs);
+            for (i, cc) in chunk.iter().enumerate() {
+                let vv = judge(cc, &io[i], &mo[i]);
+                if same_class(&vv, &best.3) {
+                    found = Some((cc.clone(), io[i].clone(), mo[i].clone(), vv));
+                    break;
+                }
+            }
+            if found.is_some() {
+                break;
+            }
+        }
+        if out_of_time && found.is_none() {
+            break;
         }
         match found {
             Some(f) => best = f,
